@@ -87,7 +87,7 @@ def limits(tier):
 def jobs(tier):
     q = tier == "quick"
     out = [{"kind": "merge", "ntopics": 2 if q else 3}]
-    for api in ("produce", "fetch"):
+    for api in ("produce", "fetch", "produce0"):
         out.append({"kind": "heal", "api": api, "faults": 1 if q else 2})
     return out
 
@@ -226,8 +226,8 @@ def _heal(job):
 
         def call():
             res = []
-            if api == "produce":
-                d = client.send_produce_request([ProduceRequest(t, p, [Message(0, 0, None, b"x")]) for (t, p) in tps], acks=1)
+            if api in ("produce", "produce0"):
+                d = client.send_produce_request([ProduceRequest(t, p, [Message(0, 0, None, b"x")]) for (t, p) in tps], acks=1 if api == "produce" else 0)
             else:
                 d = client.send_fetch_request([FetchRequest(t, p, 0, 1000) for (t, p) in tps], max_wait_time=100)
             d.addBoth(res.append)
@@ -256,7 +256,9 @@ def _heal(job):
         for fi in range(job["faults"]):
             leader = cl.leaders[("t", 0)]
             others = [n for n in cl.addr if n != leader]
-            kind = ctx.choose("fault", 3)
+            # (without acknowledgements the client cannot learn of a leader move from a broker that stays up: only
+            # connection-level faults are observable to it)
+            kind = ctx.choose("fault", 3) if api != "produce0" else 1 + ctx.choose("fault", 2)
             if kind == 0:  # leader moves; the old leader stays up and answers NOT_LEADER
                 new = others[ctx.choose("new_leader", len(others))]
                 cl.leaders[("t", 0)] = new
@@ -284,9 +286,17 @@ def _heal(job):
                 ctx.log("fault", "broker-removed", leader, new)
             # after the fault: the stale call may fail, must invalidate, and a later call must succeed
             ok = False
+            def reached():
+                cur_ = cl.leaders[("t", 0)]
+                return len([q for q in cl.requests if q.api == 0 and q.node == cur_ and any(t == b"t" for (t, _ps) in q.q["body"]["topics"])])
+
             for attempt in range(4):
+                n_reached = reached()
                 r = call()
                 good = len(r) == 1 and not isinstance(r[0], Failure) and all(x.error == 0 for x in r[0])
+                if api == "produce0":
+                    # nothing comes back: the call healed when its request was written to the partition's current leader
+                    good = good and reached() > n_reached
                 ctx.log("call", attempt, "ok" if good else ("fail" if r else "unresolved"))
                 if good:
                     ok = True
@@ -306,7 +316,7 @@ def _heal(job):
                 cur = cl.leaders[("t", 0)]
                 bm = client.topics_to_brokers.get(TopicAndPartition("t", 0))
                 ctx.check(bm is not None and bm.node_id == cur and (bm.host, bm.port) == cl.addr[cur], "view-equals-cluster-after-healing", "cache says %r, cluster leader %d at %r" % (bm, cur, cl.addr[cur]))
-                served = [q for q in cl.requests if q.api == (0 if api == "produce" else 1) and any(t == b"t" for (t, _ps) in q.q["body"]["topics"])]
+                served = [q for q in cl.requests if q.api == (1 if api == "fetch" else 0) and any(t == b"t" for (t, _ps) in q.q["body"]["topics"])]
                 ctx.check(served and served[-1].node == cur, "view-equals-cluster-after-healing", "the successful call for t/0 was served by %r" % (served[-1].node if served else None,))
 
     return run
